@@ -239,7 +239,9 @@ pub fn write_dso_debug_stream(
 
                 // C - string is NULL-terminated
                 if let Some(name) = filename_data.splitn(2, |x| *x == b'\0').next() {
-                    filename = String::from_utf8(name.to_vec())?;
+                    // File names are byte strings. One that is not UTF-8 is recorded with
+                    // replacement characters rather than costing the whole list.
+                    filename = String::from_utf8_lossy(name).into_owned();
                 }
             }
             let location = write_string_to_location(buffer, &filename)?;
